@@ -593,7 +593,7 @@ def run_e2e_suite(ctx, prop, inputs, suite, names=None):
     agree = mism = bad = frag = 0
     reported = {}
     for k, (inp, objs, r) in enumerate(zip(inputs, res, runs)):
-        ctx.evaluations += 1
+        ctx.evaluations += max(1, len(objs))      # one evaluation per judged object (direct-integration target, defaults judge, total-process record)
         shape_counts(ctx, inp, r)
         worst = 0
         anymism = False
